@@ -1539,16 +1539,23 @@ impl ConfigState {
                     "every request from generate_requests must replay cleanly"
                 );
             }
+            // Empty buckets (left behind by the remove_* handlers) emit no
+            // request and are equivalent to absent ones: drop them before
+            // comparing, as the replay check of `diff` does.
+            let mut expected = self.clone();
+            expected.backends.retain(|_, v| !v.is_empty());
+            expected.tcp_fronts.retain(|_, v| !v.is_empty());
+            expected.certificates.retain(|_, v| !v.is_empty());
             debug_assert!(
-                replayed.clusters == self.clusters
-                    && replayed.backends == self.backends
-                    && replayed.http_listeners == self.http_listeners
-                    && replayed.https_listeners == self.https_listeners
-                    && replayed.tcp_listeners == self.tcp_listeners
-                    && replayed.http_fronts == self.http_fronts
-                    && replayed.https_fronts == self.https_fronts
-                    && replayed.tcp_fronts == self.tcp_fronts
-                    && replayed.certificates == self.certificates,
+                replayed.clusters == expected.clusters
+                    && replayed.backends == expected.backends
+                    && replayed.http_listeners == expected.http_listeners
+                    && replayed.https_listeners == expected.https_listeners
+                    && replayed.tcp_listeners == expected.tcp_listeners
+                    && replayed.http_fronts == expected.http_fronts
+                    && replayed.https_fronts == expected.https_fronts
+                    && replayed.tcp_fronts == expected.tcp_fronts
+                    && replayed.certificates == expected.certificates,
                 "replaying generate_requests into a fresh state must reproduce self"
             );
         }
